@@ -8,7 +8,7 @@ mkdir -p .work/bin evidence
 (cd go/factgen && go build -o ../../.work/bin/factgen .)
 ./.work/bin/factgen -repo "${VERIF_REPO:-/repo}" -spec facts.d -out lean/TLVerif/Generated || true
 python3 tools/mkdriver.py
-(cd lean && lake build TLVerif tlmodel 2>&1 | grep -v '^trace' | grep -E 'error|✖|Build completed|failed' || true)
+(cd lean && lake build $(cat modules.txt) tlmodel 2>&1 | grep -v '^trace' | grep -E 'error|✖|Build completed|failed' || true)
 test -x lean/.lake/build/bin/tlmodel
 # warm the Go build cache for the repository packages the harnesses use
 (cd "${VERIF_REPO:-/repo}" && go build ./pkg/... ./internal/... ./cmd/... >/dev/null 2>&1 || true)
